@@ -79,7 +79,9 @@ NoTx   == [signer |-> "none", msgs |-> <<>>, fee |-> 0, gas |-> 0, cb |-> 0]
 (*          "bad"   content the handler refuses whoever sends it (wrong    *)
 (*                  number of raw reports, junk signature, unknown signal) *)
 (*          "big"   report whose data exceeds MaxReportDataSize            *)
-(*          "empty" price message with an empty price list                 *)
+(*          "empty" price message with an empty price list / MsgSubmitDEs  *)
+(*                  with no nonce pair (both pass ValidateBasic and their  *)
+(*                  handlers, and consume nothing)                         *)
 (*   inner  exec: the wrapped messages; otherwise <<>>                     *)
 (***************************************************************************)
 SignerOf(m) == m.who
@@ -100,7 +102,7 @@ Scratch0 == [cool |-> cool, room |-> room, signed |-> [s \in SigIds |-> sgn[s].s
 (*     assigned in the current attempt with this address, not signed yet,  *)
 (*     signature verifies.                                                 *)
 (*   de: member of the current/incoming bandtss group, then the real       *)
-(*     SubmitDEs handler (queue has room).                                 *)
+(*     SubmitDEs handler (queue has room for the pairs of the message).    *)
 (*   dkg1: the real SubmitDKGRound1 handler -- group in round 1, member    *)
 (*     with this address, not submitted yet, proofs verify.                *)
 (***************************************************************************)
@@ -119,9 +121,9 @@ LeafBypass(m, sc) ==
                            /\ sgn[m.id].waiting
                            /\ m.who \in sgn[m.id].assigned
                            /\ m.who \notin sc.signed[m.id]
-      [] m.k = "de"     -> /\ m.shape = "ok"
+      [] m.k = "de"     -> /\ m.shape \in {"ok", "empty"}
                            /\ m.who \in members
-                           /\ sc.room[m.who] >= 1
+                           /\ (m.shape = "ok" => sc.room[m.who] >= 1)
       [] m.k = "dkg1"   -> /\ m.shape = "ok"
                            /\ dkg.round1
                            /\ m.who \in dkg.mem
@@ -132,7 +134,7 @@ LeafBypass(m, sc) ==
 LeafApply(m, sc) ==
     CASE m.k = "price" /\ m.shape = "ok" -> [sc EXCEPT !.cool = @ \cup {m.who}]
       [] m.k = "sig"   -> [sc EXCEPT !.signed[m.id] = @ \cup {m.who}]
-      [] m.k = "de"    -> [sc EXCEPT !.room[m.who] = @ - 1]
+      [] m.k = "de" /\ m.shape = "ok" -> [sc EXCEPT !.room[m.who] = @ - 1]
       [] m.k = "dkg1"  -> [sc EXCEPT !.done = @ \cup {m.who}]
       [] OTHER         -> sc
 
@@ -171,15 +173,20 @@ FeeEnough(fee, gas) == fee * PD >= gas * ReqPrice
 (* Check = CheckTx of one signed tx on the current state.                  *)
 (*   signer  the account whose key signed (one signature)                  *)
 (*   cb      spendable balance of the signer in the node's check state     *)
-(* Order of the ante chain: fee decision (refFee), then fee deduction      *)
-(* (exempt txs are charged nothing at CheckTx), then signature checks.     *)
+(* Order of the ante chain: number of signatures (tx.ValidateBasic), fee     *)
+(* decision (refFee), fee deduction (exempt txs are charged nothing at      *)
+(* CheckTx), then public key / signature checks.                            *)
 (***************************************************************************)
 SignersOK(signer, ms) == \A i \in 1..Len(ms) : SignerOf(ms[i]) = signer
+\* the tx carries ONE signature: tx.ValidateBasic (ValidateBasicDecorator, before the fee decorator) refuses a tx
+\* whose messages need another number of signers
+OneSigner(ms) == Cardinality({SignerOf(ms[i]) : i \in 1..Len(ms)}) = 1
 
 CheckClass(signer, ms, fee, gas, cb) ==
     LET ex == Exempt(ms)
         en == FeeEnough(fee, gas) IN
-    IF ~ex /\ ~en THEN "refFee"
+    IF ~OneSigner(ms) THEN "refOther"
+    ELSE IF ~ex /\ ~en THEN "refFee"
     ELSE IF ~ex /\ cb < fee THEN "refOther"
     ELSE IF ~SignersOK(signer, ms) THEN "refOther"
     ELSE IF ex /\ ~en THEN "free"
@@ -300,7 +307,7 @@ LeafEntitled(m) ==
     CASE m.k = "report" -> m.id \in ReqIds /\ req[m.id].present /\ m.who \in req[m.id].vals /\ m.who \notin rep[m.id]
       [] m.k = "price"  -> m.who \in bonded \cap active /\ (m.shape = "ok" => (feedOn /\ m.who \notin cool))
       [] m.k = "sig"    -> m.id \in SigIds /\ sgn[m.id].waiting /\ m.who \in sgn[m.id].assigned \ sgn[m.id].signed
-      [] m.k = "de"     -> m.who \in members /\ room[m.who] >= 1
+      [] m.k = "de"     -> m.who \in members /\ (m.shape = "ok" => room[m.who] >= 1)
       [] m.k = "dkg1"   -> dkg.round1 /\ m.who \in dkg.mem \ dkg.done
       [] OTHER          -> FALSE
 
@@ -316,7 +323,7 @@ CountOcc(ms, k, who, id) ==     \* occurrences of a leaf (k, who, id) in the tx,
     IF ms = <<>> THEN 0
     ELSE LET m == Head(ms) IN
          (IF m.k = "exec" THEN CountOcc(m.inner, k, who, id)
-          ELSE IF m.k = k /\ m.who = who /\ m.id = id /\ ~(m.k = "price" /\ m.shape = "empty") THEN 1 ELSE 0)
+          ELSE IF m.k = k /\ m.who = who /\ m.id = id /\ m.shape # "empty" THEN 1 ELSE 0)
          + CountOcc(Tail(ms), k, who, id)
 
 Compatible(ms) ==
@@ -334,9 +341,12 @@ EntitledTx(ms) == ms # <<>> /\ AllEntitled(ms) /\ Compatible(ms)
 CheckStep == UNCHANGED state
 
 \* a tx admitted below the minimum fee contains only entitled free messages from entitled senders
-NoFreeRideA == (CheckStep /\ out' = "free") => AllEntitled(last'.msgs)
+\* (and no two of them spend the same entitlement -- except reports, which the checker only reads)
+NoFreeRideA == (CheckStep /\ out' = "free") => EntitledTx(last'.msgs)
 \* an entitled free tx is never refused for its fee
 EntitledNeverChargedA == (CheckStep /\ EntitledTx(last'.msgs)) => out' # "refFee"
+\* ... and is admitted whenever it is properly signed
+EntitledAdmittedA == (CheckStep /\ EntitledTx(last'.msgs) /\ SignersOK(last'.signer, last'.msgs)) => out' \in {"free", "paid"}
 \* a tx that is not entitled is admitted only with fee >= gas * price
 PaidRuleA == (CheckStep /\ out' \in {"free", "paid"} /\ ~AllEntitled(last'.msgs)) => FeeEnough(last'.fee, last'.gas)
 \* "paid"/"free" are split by the fee alone
@@ -349,10 +359,23 @@ SignerRuleA == (CheckStep /\ out' \in {"free", "paid"}) => SignersOK(last'.signe
 
 NoFreeRide           == [][NoFreeRideA]_vars
 EntitledNeverCharged == [][EntitledNeverChargedA]_vars
+EntitledAdmitted     == [][EntitledAdmittedA]_vars
 PaidRule             == [][PaidRuleA]_vars
 ClassSplit           == [][ClassSplitA]_vars
 CheckPure            == [][CheckPureA]_vars
 SignerRule           == [][SignerRuleA]_vars
+
+(***************************************************************************)
+(* LEAD, not part of X02's verdict (FeeFree_MC_lead_spend.cfg shows the    *)
+(* counter-examples): a free message should spend the entitlement that     *)
+(* made it free, so that it cannot be repeated for free.  Three shapes do  *)
+(* not: a price message with an empty list and a MsgSubmitDEs with no pair *)
+(* (both succeed and change nothing), and a report whose data exceeds      *)
+(* MaxReportDataSize (passes CheckValidReport, refused by the handler).    *)
+(***************************************************************************)
+LeafSpends(m) ==
+    CASE m.k = "report" -> m.shape = "ok"
+      [] OTHER          -> LeafApply(m, Scratch0) # Scratch0
 
 (***************************************************************************)
 (* Type invariant (also evaluated on the recorded states).                 *)
